@@ -2,16 +2,19 @@
 import json, pathlib, shutil, sys
 pid, m, caught, missed = sys.argv[1:5]
 needs = " ".join(sys.argv[5:])
-src = pathlib.Path(f"/tmp/wt/{pid}")
-dst = pathlib.Path(f"/verif/seeded/{pid}-{m}")
+import os
+WT = os.environ.get("WT", "/tmp/wt")
+TAG = os.environ.get("TAG", "")
+src = pathlib.Path(f"{WT}/{pid}")
+dst = pathlib.Path(f"/verif/seeded/{pid}-{TAG}{m}")
 dst.mkdir(parents=True, exist_ok=True)
 shutil.copy(src / f"{m}.diff", dst / "patch.diff")
-demo = (src / f"demo_{m}.py").read_text().replace(f"/tmp/wt/{pid}", "/repo")
+demo = (src / f"demo_{m}.py").read_text().replace(f"{WT}/{pid}", "/repo")
 (dst / "demo.py").write_text(demo)
-meta = {"id": f"{pid}-{m}", "breaks_property": pid, "needs_to_manifest": needs,
+meta = {"id": f"{pid}-{TAG}{m}", "breaks_property": pid, "needs_to_manifest": needs,
         "confirmed": "in a scratch worktree: existing suite unchanged (251 passed + the known always-failing test), demo exits non-zero with "
                      "the change and 0 without; then applied to /repo (git apply), checks run, reverted (git checkout -- .)",
-        "ran": f"tools/try_mutant.sh /tmp/wt/{pid} {m} {caught.split(',')[0]}",
+        "ran": f"tools/try_mutant.sh {WT}/{pid} {m} {caught.split(',')[0]}",
         "caught_by": caught.split(","), "missed_before_strengthening": missed == "yes",
         "origin": "independent sub-agent given only the property text and a scratch worktree"}
 (dst / "meta.json").write_text(json.dumps(meta, indent=1) + "\n")
